@@ -73,7 +73,8 @@ type Call struct {
 	ValUpdates []ValUpdate `json:"vu,omitempty"`
 	AppHash    string      `json:"hash,omitempty"` // Commit.Data / Info.LastBlockAppHash, hex
 	InfoHeight int64       `json:"ih,omitempty"`
-	TwinPull   string      `json:"twin,omitempty"` // BeginBlock: the reward a freshly started node would pull (optional)
+	RunPull    string      `json:"runpull,omitempty"` // BeginBlock: the reward this node itself pulls (its own long-lived calculator)
+	TwinPull   string      `json:"twin,omitempty"`    // BeginBlock: the reward a freshly started node would pull (optional)
 }
 
 type KV struct {
